@@ -1,7 +1,7 @@
 ---------------------------- MODULE Trace_Dopri ----------------------------
 (***************************************************************************)
-(* Trace validation of recorded DOPRI5 / DOP853 runs (low-level and        *)
-(* through solve_ivp) against Dopri.tla.  Lines: call, ode, ev, cb, hk     *)
+(* Trace validation of recorded DOPRI5 / DOP853 / RK23 / RK4 runs (low-    *)
+(* level and through solve_ivp) against Dopri.tla.  Lines: call, ode, ev, cb, hk     *)
 (* (decision points reported through ivp::verif_trace: dp_small, dp_land,  *)
 (* dp_acc, dp_rej, dp_stiff), ret.  The budget exit, the next step size    *)
 (* and - in solve_ivp runs - the callbacks of the crate's own output       *)
@@ -10,6 +10,8 @@
 (* Acceptance: every line is consumed (register 1 = furthest line).        *)
 (***************************************************************************)
 EXTENDS Dopri, Json, IOUtils, TLCExt
+
+CONSTANT LowBudget      \* max_steps of the low-level builder when the caller gives none (100000; RK23: 10000)
 
 Rec == ndJsonDeserialize(IOEnv.TRACE)
 N == Len(Rec)
@@ -45,7 +47,7 @@ TCall ==
           /\ api' = IF c.nocb THEN "solve_ivp" ELSE c.api           \* called without a callback: nothing to consume, as with the crate's own handler
           /\ dense' = (c.api = "solve_ivp" \/ c.lowdense)         \* solve_ivp builds the solver with its default: dense coefficients on
           /\ P' = [x0 |-> c.x0.r, xe |-> c.xend.r, slo |-> c.m.xend_lo, shi |-> c.m.xend_hi,
-                   nmax |-> IF c.maxsteps < 0 THEN (IF c.api = "low" THEN 100000 ELSE -1) ELSE c.maxsteps,
+                   nmax |-> IF c.maxsteps < 0 THEN (IF c.api = "low" THEN LowBudget ELSE -1) ELSE c.maxsteps,
                    hmax |-> 0, hasFs |-> c.hasFs]
           /\ x' = c.x0.r /\ xph' = c.x0.r /\ h' = 0 /\ last' = FALSE /\ reject' = FALSE /\ pc' = "f0" /\ status' = "None" /\ k' = 0
           /\ nOde' = 0 /\ total' = 0 /\ acc' = 0 /\ rej' = 0 /\ ncb' = 0 /\ iasti' = 0 /\ nonstiff' = 0 /\ evalMax' = c.x0.r
